@@ -9,6 +9,7 @@
 //!   merge_client_routes_update (`host.conn.port` upsert / `host.conn.x` removal), `T<tag>` merge_topology_update,
 //!   `U<addr>`/`W<addr>` up/down hint, `K` take.
 //! * `worker <op>;…`  a real `ClusterWorker::work()` behind the channel (see c19_worker.rs): what gets PUBLISHED.
+//! * `producer <op>;…`  a real `MetadataWorker::work()` in front of the channel (see c19_producer.rs).
 //! * `stress <n> <mode> <seed>`  producer OS thread merges `0..n` then drops; consumer on a tokio runtime receives
 //!   until `None` (mode 1/2: inside a `select!` that keeps cancelling and restarting `recv`); oracle only.
 //! * `race <reps> <n> <seed>`  `reps` rounds of a tiny stream whose last merge is immediately followed by the drop.
@@ -308,6 +309,8 @@ pub fn generate(rng: &mut Rng, tier: Tier, emit: &mut dyn FnMut(String)) {
     }
     // the real ClusterWorker behind the channel (consumer side: what is published)
     crate::c19_worker::generate(rng, tier, &mut |c| light.push(c));
+    // the real MetadataWorker in front of the channel (producer side: which fetch serves which request)
+    crate::c19_producer::generate(rng, tier, &mut |c| light.push(c));
     // two OS threads (spread evenly over the case list so that the runner's chunks share them)
     let mut heavy: Vec<String> = Vec::new();
     let (cases, n) = if quick { (24, 30_000u64) } else { (60, 300_000u64) };
@@ -785,6 +788,7 @@ pub fn run(case: &str, ctx: &mut Ctx) -> String {
         ["chan", body] => run_chan(body, ctx),
         ["slot"] => run_slot("", ctx),
         ["slot", body] => run_slot(body, ctx),
+        ["producer", body] => crate::c19_producer::run_producer(body, ctx),
         ["worker"] => crate::c19_worker::run_worker("", ctx),
         ["worker", body] => crate::c19_worker::run_worker(body, ctx),
         ["stress", n, mode, seed] => match (n.parse(), mode.parse(), seed.parse()) {
